@@ -30,6 +30,9 @@
 #define IV_SM3 { 0x7380166fu, 0x4914b2b9u, 0x172442d7u, 0xda8a0600u, 0xa96f30bcu, 0x163138aau, 0xe38dee4du, 0xb0fb0e4eu }
 static const WORD std_iv[NWORDS] = CAT(IV_, ALG);
 
+#ifndef SM3SWAP
+#define SM3SWAP 0
+#endif
 #ifndef MAXLEN
 #define MAXLEN (4 * BS + 7)
 #endif
@@ -237,6 +240,11 @@ void harness(void)
         }
         for (int i = 0; i < NWORDS; i++) {
                 WORD want = g_calls > 0 ? TOKEN(g_calls - 1, i) : (has_first ? std_iv[i] : d0[i]);
+#if SM3SWAP
+                /* SM3 hands its result back with the bytes of every word swapped (as the multi-buffer SM3 context layer does) */
+                if (has_last)
+                        want = (WORD) (((uint32_t) want >> 24) | (((uint32_t) want >> 8) & 0xff00u) | (((uint32_t) want << 8) & 0xff0000u) | ((uint32_t) want << 24));
+#endif
                 VASSERT(c.job.result_digest[i] == want, "C01,C20:base: digest left in the context is not the last compression result");
         }
         WITNESS_END();
